@@ -50,6 +50,9 @@ def check(ctx):
         base.append(rnd.choice([pre + 'include "stdgates.inc";\n' + tail,
                                 'include "stdgates.inc";\n' + pre + tail,
                                 'include "stdgates.inc";\nqubit q;\ninclude "stdgates.inc";\n' + tail]))
+    # literal programs: numbers with and without a blank before their unit (`.5ns` / `.5 ns`), version headers
+    from . import oracle_sema_b as OB
+    base += OB.gen_literal_programs(ctx.seed + 71, 600 if q else 8000)
     near = [perturb(t, rnd) for t in base[: (1500 if q else 20000)]]
     base += [t for t in near if t]
     base = C.uniq(base)
